@@ -174,44 +174,52 @@ def rules(ctx, tier):
         if e.kind == "FS_RENAME" and any(c in ("CAS_DIR", "CAS_ROOT") for c in e.classes | e.classes2):
             r.bad("rename-dir-under-cas:%s" % site_construct(e.site), e.site.body,
                   "a directory under cas/ is renamed at %s" % site_where(e.site), site_where(e.site))
-    # publish body: rename dominated by mkdir(parent) Ok edge, or by the flag's true edge
+    # publish step: the rename is dominated by the Ok edge of mkdir(parent), or by the edge of the stored flag that
+    # skips it - judged on the flat view of the commit path (the mkdir may sit in a helper of its own)
     for e in ctx.fx.of_kind("FS_RENAME"):
         if not (e.classes2 and e.classes2 <= {"CAS_BLOB"}):
             continue
-        b = e.site.body
-        rf = must.rf(b)
-        mk = [x.site for x in ctx.fx.effects if x.site.body.path == b.path and x.kind == "FS_MKDIR" and
-              any(is_cas_class(c) or c.startswith("PARENT:CAS") for c in x.classes)]
-        edges = []
-        for m in mk:
-            edges += rf.ok_edges_of(m.bb)
+        ob = e.site.body
+        mgr = prog.adt_of(ob.locals[1])[0] if ob.argc >= 1 else None
+        mgr_flags = set(f["name"] for f in prog.adts[mgr]["variants"][0]["fields"]
+                        if prog.ty_str(f["ty"]) == "bool") if mgr in prog.adts else set()
+        b = ctx.flat(ctx.scope_root(ob))
+        rf = ctx.rf(b)
         sl = Slicer(ctx.world, b)
-        for sw in b.normal_blocks():
-            c = cfgutil.switch_condition(b, sw)
-            if c and c[0] == "bool":
-                lv = sl.leaves_of_operand(c[1])
-                if lv and all(l[0] == "param" and l[1] == 1 and l[2] for l in lv) and \
-                        prog.ty_str(ctx.world._field_ty(("F", prog.adt_of(b.locals[1])[0], list(lv)[0][2][-1])) or 0) == "bool":
-                    tt, ff = cfgutil.true_false_edges(b, sw)
-                    # `!flag` is lowered as Not: switch_condition keeps the operand; accept either edge that bypasses mkdir
-                    for t in (tt, ff):
-                        if t is not None and not any(m.bb in cfgutil.reach(b, t) and not b.dominates(e.site.bb, m.bb) for m in mk):
-                            edges.append((sw, t))
-        # a path without a parent has no directory to create
-        for sw in b.normal_blocks():
-            c = cfgutil.switch_condition(b, sw)
-            if c and c[0] == "discr":
-                lv = sl.leaves_of_place(c[1])
-                if lv and all(l[0] == "call" and l[1] == "std::path::Path::parent" for l in lv):
-                    ed = cfgutil.switch_edges(b, sw)
-                    none_t = ed.get(0, ed["otherwise"] if 1 in ed else None)
-                    if none_t is not None:
-                        edges.append((sw, none_t))
-        n += 1
-        r.check(bool(edges) and cfgutil.edges_dominate(b, edges, e.site.bb), "parent-dir-exists", b,
-                "the publish rename at %s happens after the shard directory was created, or under the stored 'pre-created' flag" % site_where(e.site),
-                "the publish rename at %s can happen without the shard directory having been created and without the "
-                "stored flag vouching for it" % site_where(e.site), site_where(e.site))
+        for fsite in ctx.flat_sites_of(b, e.site):
+            mk = [s for s in b.sites() if any(x.kind == "FS_MKDIR" and any(
+                is_cas_class(c) or c.startswith("PARENT:CAS") for c in x.classes) for x in ctx.effects_at(s))]
+            edges = []
+            for m in mk:
+                # the attempt is enough here: if it failed and the failure were ignored, the rename fails for want of
+                # the directory (that a failure is not ignored is C14-R1's business)
+                edges += [(m.bb, x) for x in b.succs(m.bb)]
+            for sw in b.normal_blocks():
+                c = cfgutil.switch_condition(b, sw)
+                if c and c[0] == "bool":
+                    lv = sl.leaves_of_operand(c[1])
+                    if lv and all(l[0] == "param" and l[2] and l[2][-1] in mgr_flags for l in lv):
+                        tt, ff = cfgutil.true_false_edges(b, sw)
+                        # `!flag` is lowered as Not: switch_condition keeps the operand; accept either edge that bypasses mkdir
+                        for t in (tt, ff):
+                            if t is not None and not any(m.bb in cfgutil.reach(b, t) and not b.dominates(fsite.bb, m.bb)
+                                                         for m in mk):
+                                edges.append((sw, t))
+            # a path without a parent has no directory to create
+            for sw in b.normal_blocks():
+                c = cfgutil.switch_condition(b, sw)
+                if c and c[0] == "discr":
+                    lv = sl.leaves_of_place(c[1])
+                    if lv and all(l[0] == "call" and l[1] == "std::path::Path::parent" for l in lv):
+                        ed = cfgutil.switch_edges(b, sw)
+                        none_t = ed.get(0, ed["otherwise"] if 1 in ed else None)
+                        if none_t is not None:
+                            edges.append((sw, none_t))
+            n += 1
+            r.check(bool(edges) and cfgutil.edges_dominate(b, edges, fsite.bb), "parent-dir-exists", ob,
+                    "the publish rename at %s happens after the shard directory was created, or under the stored 'pre-created' flag" % site_where(e.site),
+                    "the publish rename at %s can happen without the shard directory having been created and without the "
+                    "stored flag vouching for it" % site_where(e.site), site_where(e.site))
     r.need(1, "publish rename")
     out.append(r.finish())
     r = Rule("R7", "the stored 'pre-created' flag never runs ahead of the tree it vouches for: within an open, no shard "
